@@ -408,6 +408,52 @@ def check_parser(b, C, H1):
                     kinds.append('other:' + sd[:30])
             if sorted(kinds) != ['framing', 'headers', 'payload'] or not (len(init) == 1 and init[0].startswith('slice::len(')):
                 probs.append(('remaining-accounting', 'the remaining-bytes counter is initialised with %s and decremented by %s (expected data.len(), then framing %d, header size, payload size once each)' % (init, kinds, C)))
+    # the "probably corrupt" heuristic (is a second frame marker hidden inside this message?) may only run when the bytes
+    # that follow the message are visible: every use of the marker predicate is dominated by `remaining >= 4`.  Without
+    # that look-ahead the absence of a following marker proves nothing and a well-formed last message of a buffer /
+    # of an exported file is rejected.
+    import guards
+    Eg = ExprBuilder(cfg)
+    marker_calls = [blk for blk in b.calls() if re.search(r'::is_(storage|serial)_header_pattern$', blk.term.callee.path)]
+    H1.sites += len(marker_calls)
+    def fresh(D, var, use_block):
+        # no store to the tested variable on any path from the guard's taken edge to the use
+        tgt = [S for (Dd, S, v, allv) in guards.dominating_edges(cfg, use_block) if Dd == D]
+        if not tgt or not (isinstance(var, tuple) and var[0] == 'place' and len(var) == 2):
+            return False
+        ls_ = b.locals_named(var[1])
+        fwd = cfg.reachable_from(tgt[0], avoid={D})
+        for x in fwd:
+            if x != use_block and use_block not in cfg.reachable_from(x, avoid={D}):
+                continue
+            if x == use_block:
+                continue
+            for s_ in b.blocks[x].stmts:
+                if s_.k == 'assign' and s_.place.is_local and s_.place.l in ls_:
+                    return False
+        return True
+    for blk in marker_calls:
+        la = False
+        for (c, truth, D) in guards.known(cfg, Eg, blk.i):
+            if truth is True and isinstance(c, tuple) and c[0] == 'bin':
+                k3, k2 = fold(c[3]), fold(c[2])
+                var = None
+                if c[1] == 'Ge' and k3 is not None and k3 >= 4 and k2 is None:
+                    var = c[2]
+                if c[1] == 'Gt' and k3 is not None and k3 >= 3 and k2 is None:
+                    var = c[2]
+                if c[1] == 'Le' and k2 is not None and k2 >= 4 and k3 is None:
+                    var = c[3]
+                if c[1] == 'Lt' and k2 is not None and k2 >= 3 and k3 is None:
+                    var = c[3]
+                if var is not None and fresh(D, var, blk.i):
+                    la = True
+        if not la:
+            probs.append(('heuristic-without-lookahead', 'the frame-marker heuristic is evaluated at %s without a dominating `remaining >= 4`: a complete message at the end of the data (nothing visible behind it) '
+                          'that contains the marker bytes is rejected as corrupt' % b.loc(blk.term.sp)))
+            break
+    if not marker_calls:
+        probs.append(('heuristic-anchor', 'no use of is_*_header_pattern found (anchor lost)'))
     if probs:
         for k, pr in probs:
             H1.violation(('parser-layout', b.path, k), '%s: %s' % (b.path, pr), where=b.loc(None))
